@@ -52,7 +52,7 @@ def run(ctx: Ctx) -> int:
                              "checker/cfg_checker.py: check_cfg (VarNotDefinedError / VarMaybeNotDefinedError at uses), check_rows_match (BranchTypeError at joins), diagnose_maybe_undefined — all through the real check()"]
     ctx.bounds = {"programs": f"{n} generated (seed {ctx.seed}, depth {depth}) + {nfixed} fixed: assignments of int/bool/float/tuple constants and copies to a, b, c, type-agnostic reads (generic sink), "
                               "if/else, while, for over range, break, continue, return, nesting depth as given",
-                  "paths": "definedness: all decision vectors of up to 8 conditions; types: all pairs of vectors of up to 6 conditions (symbolic)"}
+                  "paths": "definedness: all decision vectors of up to 10 conditions; types: soundness over all pairs of vectors of up to 6 conditions, witnesses searched among pairs of up to 8 + 8 (symbolic)"}
     ctx.outside_claim = ["reads inside dead code (statements after a jump, bodies of `if False:`): the compiler analyses them as if reachable; assignments in dead code ARE in (they make the name a local, as in Python)", "nested function definitions reading outer variables (capturing closures are an experimental feature)",
                          "the wording, labels and spans of the diagnostic (only its class)", f"programs rejected for another reason ({len(other)} in this run)"]
     ctx.assumptions = ["every syntactic path is feasible (conditions are opaque calls; `for` bodies may run zero times), the reading the property prescribes",
